@@ -87,3 +87,17 @@ func TestVerifReplay(t *testing.T) {
 	fmt.Println("REPLAY-DONE")
 }
 `
+
+// conformanceReplay: for C03, the generated table of valid frames (replay_c03_gen.go) is read by the real ReadPacket.
+func conformanceReplay(prop string, r *Result) string {
+	if prop != "C03" {
+		return ""
+	}
+	out, _ := runOverlayTest(c03Harness, false)
+	for _, line := range strings.Split(out, "\n") {
+		if strings.HasPrefix(line, "REPLAY-FOUND") {
+			return line
+		}
+	}
+	return ""
+}
